@@ -23,8 +23,8 @@ H = {'errno': mk('errno', files.scen_errno, ('fails', 'ok')),
 def build_jobs(tier, seed):
     J = common.Job
     return [J(H['errno'], {}), J(H['last-bytes'], {}),
-            J(H['checksum'], dict(reads=4 if tier == 'quick' else 8)),
-            J(H['checksum'], dict(reads=3 if tier == 'quick' else 6,
+            J(H['checksum'], dict(reads=8 if tier == 'quick' else 16)),
+            J(H['checksum'], dict(reads=4 if tier == 'quick' else 8,
                                   chunk_choices=[1, 7, 4096, 65536])),
             J(H['tempfile'], {})]
 
@@ -41,7 +41,7 @@ def describe(tier):
         'compute_file_checksum': 'symbolic size and chunk size with size <= '
         '%d x chunk size (at most that many non-empty reads); the '
         'concatenation of the hasher updates is structurally the whole '
-        'content' % (4 if tier == 'quick' else 8),
+        'content' % (8 if tier == 'quick' else 16),
         'write_to_tempfile': 'call protocol against recording stubs (with / '
         'without directory, write failing or not)',
         'outside': 'the real filesystem, mkstemp uniqueness, hashlib '
